@@ -46,6 +46,7 @@ def gen_session(rng, n_nodes):
         sb.create_feature(ts, "x.Own", n, "uima.cas.FSArray", elem=e, multi=m)
     sb.create_feature(ts, "x.Own", "link", "uima.cas.TOP")
     h = sb.cas_new(ts, text="x" * 50)
+    h2 = sb.create_view(h, "v2")
     elems = []
     etype = {}
     for i in range(n_nodes):
@@ -80,10 +81,12 @@ def gen_session(rng, n_nodes):
     # some owners are indexed, others only referenced through `link` of an indexed one
     indexed = [owners[0]]
     sb.op(op="cas.add", h=h, fs=owners[0])
+    if rng.random() < 0.3:
+        sb.op(op="cas.add", h=h2, fs=owners[0])     # the same owner indexed in a second view: still one report per element
     prev = owners[0]
     for o in owners[1:]:
         if rng.random() < 0.5:
-            sb.op(op="cas.add", h=h, fs=o); indexed.append(o)
+            sb.op(op="cas.add", h=rng.choice([h, h2]), fs=o); indexed.append(o)
         elif rng.random() < 0.8:
             sb.op(op="fs.set", fs=prev, path="link", v={"r": o}); edges[prev].append(o)
         prev = o
